@@ -1139,6 +1139,22 @@ def mutate(rng, base, name):
             o2["entries"].insert(rng.randint(0, len(o2["entries"])), dup)
             o2["entries"] = o2["entries"]
             # overlapping the next region is accepted: later writes win in the writer
+    for t in c["ktabs"]:
+        t["seq"] &= 0xFFFF
+        for e in t["entries"]:
+            e["poff"] &= 0xFFFFFFFF
+            e["pidx"] &= 0xFFFF
+            e["size"] &= 0xFFFFFFFF
+            e["doff"] &= 0xFF
+            e["type"] &= 0xFFFF
+    for o in c["otabs"]:
+        if "n" in o:
+            o["n"] &= 0xFFFFFFFF
+        for e in o["entries"]:
+            e["size"] &= 0xFFFFFFFF
+            e["off"] &= 0xFFFFFFFFFFFFFFFF
+    for r in c["rlogs"]:
+        r["n"] &= 0xFFFFFFFF
     return c if ok else None
 
 
